@@ -224,6 +224,15 @@ class World:
                 scen.pop('pinata', None)
         return scen
 
+    def gen_barrier(self, rng):
+        n = rng.choice([2, 2, 3, 4])
+        mods = [{'name': f'm{i}', 'a1': None, 'a2': None, 'use': 'never', 'cls': 'M', 'export': True, 'x': None,
+                 'read_takes': rng.choice([0, 0, 2, 5]), 'shutdown_takes': 0, 'read_fails': False, 'fail': None} for i in range(n)]
+        return {'mods': mods, 'kind': 'barrier-race', 'other': False,
+                'strategy': ['labels', {'thread.start': rng.choice([0.3, 0.6, 0.9]), 'event.set': rng.choice([0.5, 0.8]),
+                                        'acquire': rng.choice([0.0, 0.02])}, 0.0],
+                'sched_seed': rng.randrange(1 << 30)}
+
     def build_cfg(self, scen):
         cfg = {}
         classes = {'M': self.M, 'NoPoll': self.NoPoll, 'Typed': self.Typed}
@@ -330,8 +339,11 @@ class World:
                 self.LOG.append((len(self.LOG), s.now, 'node', 'shutdown-call'))
                 node.secnode.shutdown_modules()
                 self.LOG.append((len(self.LOG), s.now, 'node', 'shutdown-done'))
+        if scen.get('strategy'):        # schedule-directed scenarios carry their strategy (replayable)
+            strategy, seed = tuple(scen['strategy']), scen['sched_seed']
         s = D.Sched(strategy, seed, horizon=400, grace=10, max_steps=400000)
         s.run(root, wall_timeout=90)
+        info['preemptions'] = s.npreempt
         return s, info
 
     def judge(self, scen, s, info):
@@ -478,6 +490,15 @@ def run_shard(shard):
         w.judge(scen, s, info)
     r.exhaustive = None
     r.count('random_graphs', shard['n'])
+    # ---- races at the start barrier: a poll thread finishing its first round while the server starts the next module
+    # (preemptions directed at thread starts and at the raising of event flags)
+    for i in range(max(8, shard['n'] // 2)):
+        scen = w.gen_barrier(rng)
+        s, info = w.run(scen)
+        w.judge(scen, s, info)
+        r.count('barrier_race_runs')
+        if info.get('preemptions'):
+            r.count('barrier_race_runs_with_preemptions')
     return r.result()
 
 
